@@ -315,3 +315,97 @@ pub(crate) fn get_lookup_tables(
         completion_transitions,
     }
 }
+
+#[cfg(feature = "verif")]
+pub mod verif_hooks {
+    use super::*;
+    use crate::dfa::DFAId;
+
+    /// Plain-data copy of `LookupTables` (whose fields are crate-private).
+    #[derive(Debug, Clone, PartialEq, Eq)]
+    pub struct Dump {
+        pub all_literals: Vec<(LiteralId, String, String)>,
+        pub match_literal: BTreeMap<StateId, BTreeMap<LiteralId, StateId>>,
+        pub match_command: Option<BTreeMap<StateId, BTreeMap<CommandId, StateId>>>,
+        pub match_compadd: Option<BTreeMap<StateId, BTreeMap<CommandId, StateId>>>,
+        pub match_star: Option<Vec<(StateId, StateId)>>,
+        pub max_fallback_level: usize,
+        pub compl_literal: Vec<BTreeMap<StateId, Vec<u32>>>,
+        pub compl_command: Option<Vec<BTreeMap<StateId, Vec<u32>>>>,
+        pub compl_compadd: Option<Vec<BTreeMap<StateId, Vec<usize>>>>,
+        pub shape_hash: u64,
+    }
+
+    pub struct Tables(LookupTables);
+
+    impl Tables {
+        pub fn isomorphic_to(&self, other: &Tables) -> bool {
+            self.0.isomorphic_to(&other.0)
+        }
+
+        pub fn dump(&self) -> Dump {
+            let t = &self.0;
+            let bits = |v: &Vec<BTreeMap<StateId, RoaringBitmap>>| -> Vec<BTreeMap<StateId, Vec<u32>>> {
+                v.iter()
+                    .map(|m| m.iter().map(|(k, b)| (*k, b.iter().collect())).collect())
+                    .collect()
+            };
+            Dump {
+                all_literals: t
+                    .all_literals
+                    .iter()
+                    .map(|(id, l, d)| (*id, l.to_string(), d.to_string()))
+                    .collect(),
+                match_literal: t.match_transitions.literal.clone(),
+                match_command: t.match_transitions.command.clone(),
+                match_compadd: t.match_transitions.compadd.clone(),
+                match_star: t.match_transitions.star.clone(),
+                max_fallback_level: t.completion_transitions.max_fallback_level,
+                compl_literal: bits(&t.completion_transitions.literal),
+                compl_command: t.completion_transitions.command.as_ref().map(bits),
+                compl_compadd: t.completion_transitions.compadd.clone(),
+                shape_hash: t.shape_hash(),
+            }
+        }
+    }
+
+    pub fn lookup_tables(
+        dfa: &DFA,
+        id_from_cmd: &IndexSet<Ustr>,
+        array_start: usize,
+        needs_commands_code: bool,
+        needs_compadds_code: bool,
+        needs_star_code: bool,
+    ) -> Tables {
+        Tables(get_lookup_tables(
+            dfa,
+            id_from_cmd,
+            array_start,
+            needs_commands_code,
+            needs_compadds_code,
+            needs_star_code,
+        ))
+    }
+
+    pub fn commands(dfa: &DFA) -> IndexSet<Ustr> {
+        dfa.get_commands()
+    }
+
+    pub fn subwords(dfa: &DFA, first_id: usize) -> Vec<(DFAId, usize)> {
+        dfa.get_subwords(first_id).into_iter().collect()
+    }
+
+    /// (subwords, top-level commands, subword commands, top-level compadds, subword compadds,
+    /// top-level star, subword star)
+    pub fn needs(dfa: &DFA) -> [bool; 7] {
+        [
+            dfa.needs_subwords_code(),
+            dfa.needs_top_level_commands_code(),
+            dfa.needs_subword_commands_code(),
+            dfa.needs_top_level_compadds_code(),
+            dfa.needs_subword_compadds_code(),
+            dfa.needs_top_level_star_code(),
+            dfa.needs_subword_star_code(),
+        ]
+    }
+}
